@@ -1,6 +1,6 @@
 (* C20/Props.v — property theorems only (statements in full; proofs are one-liners to C20/Proofs.v). *)
 From Coq Require Import List String Bool ZArith.
-From Exo Require Import Base.Store Base.IntDec C20.Model C20.Proofs.
+From Exo Require Import Base.Store Base.IntDec C20.Model C20.Keys C20.Proofs C20.ProofsStats.
 Import ListNotations.
 Local Open Scope Z_scope.
 
@@ -51,7 +51,7 @@ Print Assumptions C20_deregister_requires.
    minimum self delegation (in every state, hence in every reachable one). *)
 Theorem C20_optin_requires : forall e st key addr caller operator self frozen st',
   step e st (OOptIn key addr caller operator self frozen) = (st', ROk) ->
-  exists a v, sget (s_avs st) (addr_key addr) = Some a /\ is_operator e operator = true /\
+  exists a v, sget (s_avs st) (addr_key addr) = Some a /\ a_addr a = addr /\ is_operator e operator = true /\
               self = Some v /\ dec_of_int (a_min_self a) <= v /\ opted_active st operator addr = false.
 Proof. exact optin_requires. Qed.
 Print Assumptions C20_optin_requires.
@@ -143,17 +143,65 @@ Example C20_empty_signature_regression :
   s_res (run w_env w_st0 w_ops_a) = [].
 Proof. exact regression_empty_signature. Qed.
 
-(* Statistics.  Full statement (kept visible): for a group the hook writes, the signer list is exactly the operators
-   with a stored result in the group and the non-signer list is exactly the opt-in snapshot minus the signers.
-   The SIGNER half is now proved (C20_statistics_partial + C20_statistics_signers + C20_results_always_signed);
-   the NON-SIGNER half is still false of the faithful model (refutation below). *)
-Definition C20_statistics_full : Prop :=
-  forall st au ou ms, (forall r, In r ms -> sig_ok r = true) -> stat_group st au ou ms <> st ->
-  exists r0 t t', In r0 ms /\
-    sget (s_tasks st) (join2 (r_task r0) (dec_str (r_id r0))) = Some t /\
-    sget (s_tasks (stat_group st au ou ms)) (join2 (t_addr t) (dec_str (t_id t))) = Some t' /\
-    (forall o, In o (t_signed t') <-> In o (map r_op ms)) /\
+(* The key encodings are injective: strconv.FormatUint (dec_str) on non-negative numbers, and
+   GetJoinedStoreKey(address, decimal id) as soon as one of the two addresses has no '/'. *)
+Theorem C20_key_encoding_injective : forall a b x y, no_slash b = true -> 0 <= x -> 0 <= y ->
+  join2 a (dec_str x) = join2 b (dec_str y) -> a = b /\ x = y.
+Proof. exact join2_dec_inj. Qed.
+Print Assumptions C20_key_encoding_injective.
+
+(* Over all histories (task-contract addresses of createTask without '/'): a task is stored under its own key, its id
+   lies in 1..counter of its contract (so createTask never overwrites a task), *)
+Theorem C20_tasks_keyed : forall e st0 ops, forallb op_wf2 ops = true -> big_inv st0 ->
+  forall k t, In (k, t) (s_tasks (run e st0 ops)) ->
+  k = join2 (t_addr t) (dec_str (t_id t)) /\ 1 <= t_id t <= num_at (run e st0 ops) (addr_key (t_addr t)).
+Proof. exact tasks_keyed. Qed.
+Print Assumptions C20_tasks_keyed.
+
+(* ... and every stored (= accepted) result belongs to an existing task and to an operator of that task's opt-in
+   snapshot (repaired behaviour: SetTaskResultInfo rejects operators outside TaskInfo.OptInOperators). *)
+Theorem C20_results_in_snapshot : forall e st0 ops, forallb op_wf2 ops = true -> big_inv st0 ->
+  forall k r, In (k, r) (s_res (run e st0 ops)) ->
+  exists t, sget (s_tasks (run e st0 ops)) (join2 (r_task r) (dec_str (r_id r))) = Some t /\
+            r_task r = t_addr t /\ r_id r = t_id t /\ In (r_op r) (t_optin t).
+Proof. exact results_in_snapshot. Qed.
+Print Assumptions C20_results_in_snapshot.
+
+(* STATISTICS, FULL, for the whole epoch-end step (one ended epoch) in every reachable state: the step never panics, and
+   for EVERY task of the store, afterwards the task
+   - is untouched, and then either no stored result of this task has its statistical period ending now, or the AVS
+     owning the task address has no USD value (the hook skips the group), or
+   - keeps its address / id / opt-in snapshot and
+       signers      = exactly the operators with a stored (accepted) result for this task whose period ends now,
+       non-signers  = exactly the opt-in snapshot minus the signers. *)
+Theorem C20_statistics : forall e st0 ops, forallb op_wf2 ops = true -> big_inv st0 -> sigs_ok st0 ->
+  forall id num au ou K t, sget (s_tasks (run e st0 ops)) K = Some t ->
+  snd (step e (run e st0 ops) (OEpochEnd [(id, num)] au ou)) = ROk /\
+  exists t', sget (s_tasks (fst (step e (run e st0 ops) (OEpochEnd [(id, num)] au ou)))) K = Some t' /\
+    ((t' = t /\
+      ((forall k r, In (k, r) (s_res (run e st0 ops)) -> due (run e st0 ops) id num r = true ->
+                    r_task r = t_addr t -> r_id r = t_id t -> False) \/
+       assoc au (by_task_addr (s_avs (run e st0 ops)) (t_addr t)) = None)) \/
+     (t_addr t' = t_addr t /\ t_id t' = t_id t /\ t_optin t' = t_optin t /\
+      (forall o, In o (t_signed t') <->
+         exists k r, In (k, r) (s_res (run e st0 ops)) /\ due (run e st0 ops) id num r = true /\
+                     r_task r = t_addr t /\ r_id r = t_id t /\ r_op r = o) /\
+      (forall o, In o (t_nosigned t') <-> In o (t_optin t) /\ ~ In o (t_signed t')))).
+Proof. exact epoch_end_stats2. Qed.
+Print Assumptions C20_statistics.
+
+(* The same for one group as the hook forms it (this is the former Definition C20_statistics_full, now a theorem). *)
+Theorem C20_statistics_full : forall st au ou h duel, big_inv st -> sigs_ok st ->
+  (forall r, In r duel -> exists k, In (k, r) (s_res st)) ->
+  stat_group st au ou (filter (same_group h) duel) = st \/
+  exists t t', sget (s_tasks st) (join2 (r_task h) (dec_str (r_id h))) = Some t /\
+    stat_group st au ou (filter (same_group h) duel)
+      = with_tasks st (sset (s_tasks st) (join2 (r_task h) (dec_str (r_id h))) t') /\
+    t_addr t' = t_addr t /\ t_id t' = t_id t /\ t_optin t' = t_optin t /\
+    (forall o, In o (t_signed t') <-> In o (map r_op (filter (same_group h) duel))) /\
     (forall o, In o (t_nosigned t') <-> In o (t_optin t) /\ ~ In o (t_signed t')).
+Proof. exact group_stats. Qed.
+Print Assumptions C20_statistics_full.
 
 (* What IS proved, for every group the hook processes: it is either skipped (state unchanged: no signed result, task
    info or AVS USD value unreadable) or signers = the group's results that carry a signature, in operator order;
@@ -186,12 +234,15 @@ Theorem C20_nonsigners_partial : forall optin signed x,
 Proof. exact nonsigners_spec. Qed.
 Print Assumptions C20_nonsigners_partial.
 
-(* Refutation (non-signer half): an operator outside the opt-in snapshot whose result was accepted is listed as signer AND non-signer. *)
-Theorem C20_statistics_signer_not_opted_in_refuted : exists e st0 ops t o,
-  st_sorted st0 /\ reg_inv (s_avs st0) /\ forallb (fun r => result_eqb r ROk) (run_results e st0 ops) = true /\
-  sget (s_tasks (run e st0 ops)) "0xT/1" = Some t /\ In o (t_signed t) /\ In o (t_nosigned t) /\ ~ In o (t_optin t).
-Proof. exact refuted_signer_not_opted_in. Qed.
-Print Assumptions C20_statistics_signer_not_opted_in_refuted.
+(* Regression (former refutation C20_statistics_signer_not_opted_in_refuted): an operator outside the opt-in snapshot is
+   rejected in phase one; after the statistics only the snapshot operator is a signer and nobody a non-signer. *)
+Example C20_signer_not_opted_in_regression :
+  run_results w_env w_st0 w_ops_b = [ROk; ROk; ROk; ROk; ROk; ROk; ROk; RErr; ROk; ROk] /\
+  match sget (s_tasks (run w_env w_st0 w_ops_b)) "0xT/1" with
+  | Some t => t_optin t = ["op1"%string] /\ t_signed t = ["op1"%string] /\ t_nosigned t = []
+  | None => False
+  end.
+Proof. exact witness_b. Qed.
 
 (* Non-vacuity: a history on which register, BLS registration, opt-in, two task creations (ids 1, 2), phase one,
    phase two and a challenge are all accepted, made of well-formed ops, from the empty state. *)
@@ -202,3 +253,17 @@ Proof. exact witness_ok. Qed.
 
 Example C20_hyps_satisfiable : forall eps, st_sorted (empty_state eps) /\ reg_inv (s_avs (empty_state eps)).
 Proof. exact hyps_satisfiable. Qed.
+
+Example C20_big_inv_satisfiable : forall eps, big_inv (empty_state eps).
+Proof. exact big_inv_empty. Qed.
+
+Example C20_sigs_ok_satisfiable : forall eps, sigs_ok (empty_state eps).
+Proof. exact sigs_ok_empty. Qed.
+
+Example C20_statistics_nonvacuous :
+  forallb op_wf2 w_ops_b = true /\ forallb op_wf w_ops_b = true /\
+  match sget (s_tasks (run w_env w_st0 w_ops_b)) "0xT/1" with
+  | Some t => t_signed t = ["op1"%string] /\ t_nosigned t = [] /\ t_optin t = ["op1"%string]
+  | None => False
+  end.
+Proof. exact stats_nonvacuous. Qed.
